@@ -17,6 +17,7 @@ import traceback
 from . import core
 
 MAX_SIGNATURES = 5          # distinct root causes reported per shard
+MAX_FAILING_GRID_CELLS = 3
 SHRINK_BUDGET = {"quick": 40.0, "thorough": 150.0}
 NSHARDS = int(os.environ.get("VERIF_SHARDS", "16"))
 
@@ -116,11 +117,19 @@ def run_shard(mod, tier, seed, shard, nshards, ctx, rep, n_examples=None, second
     # enumerated sub-grid (coarse cases, evaluated through check_case like any other)
     grid = getattr(mod, "grid", None)
     if grid is not None:
+        failing_cells = 0
         for i, case in enumerate(grid(tier)):
             if i % nshards != shard:
                 continue
+            if failing_cells >= MAX_FAILING_GRID_CELLS:
+                # a broken library can make the remaining (larger) cells arbitrarily expensive; the verdict is already
+                # "violated", the rest of the grid adds nothing
+                ctx.label("grid:cut-short-after-%d-failing-cells" % MAX_FAILING_GRID_CELLS)
+                break
             vs = core.evaluate(mod, case, ctx)
             new = rep.split(vs)
+            if new:
+                failing_cells += 1
             if new:
                 sigs = set(s for s, _, _ in rep.reported)
                 if new[0].signature not in sigs and len(sigs) < MAX_SIGNATURES:
